@@ -1158,8 +1158,57 @@ def remote_completion_cases(res):
                 res.violations.append(Violation('queues-not-drained', f"sizes after 12 updates: {rig.sizes()}", case))
 
 
+def two_engines_cases(res):
+    """two (three) engines alive in ONE process, built the way the setup class builds them and not connected to each other:
+    each sees exactly its own data and its own fed-back events, produces one complex event, one action run and one action
+    event per run IT completed -- whatever the other engines do meanwhile."""
+    for n_eng in (2, 3):
+        for order in ('interleaved', 'one-after-the-other'):
+            case = {'two_engines': n_eng, 'order': order}
+            res.add_case(case, nontrivial=True)
+            res.count('several_engines_cases')
+            rigs = []
+            for k in range(n_eng):
+                rigs.append(Rig({'build': 'simple', 'cfg': [0, 0, 0, 0, 1], 'validator': 'all', 'local_only': 1,
+                                 'phens': [{'name': 'p0', 'where': 'B', 'dg': 'cnt', 'act': f'a{k}:t',
+                                            'patterns': [{'name': 'pa', 'blocks': [['fb', ['eq', 0]], ['fb', ['eq', 1]]], 'halt': None}]}],
+                                 'ops': []}))
+            feeds = [[0, 1], [0, 0, 1, 1], [1, 0]][:n_eng]      # engine k completes 1, 2, 0 runs
+            try:
+                if order == 'interleaved':
+                    for i in range(4):
+                        for k, rig in enumerate(rigs):
+                            if i < len(feeds[k]):
+                                rig.eng.receiver.add_data(feeds[k][i])
+                            rig.eng.update()
+                else:
+                    for k, rig in enumerate(rigs):
+                        for d in feeds[k]:
+                            rig.eng.receiver.add_data(d)
+                            rig.eng.update()
+                for _ in range(8):
+                    for rig in rigs:
+                        rig.eng.update()
+            except Exception as e:      # noqa
+                res.violations.append(Violation('engine-raised', f"{case}: {type(e).__name__}: {e}", case))
+                continue
+            want = [1, 2, 0][:n_eng]
+            for k, rig in enumerate(rigs):
+                got = (len(rig.complexes), len(rig.exec_log), len(rig.actions))
+                fed_back = len([e for e in rig.seen if not isinstance(e, BoboEventSimple)])
+                if got != (want[k], want[k], want[k]) or fed_back != 2 * want[k] or any(rig.sizes()):
+                    res.violations.append(Violation(
+                        'counts-differ', f"{case}: engine {k} completed {want[k]} run(s) of its own and shows (complex events, action runs, "
+                        f"action events) = {got}, {fed_back} fed-back events at its decider (expected {2 * want[k]}), sizes {rig.sizes()}", case))
+                    break
+
+
 def run(ctx: Ctx) -> Result:
     res = Result()
+    if ctx.replay is None or (isinstance(ctx.replay.get('replay'), dict) and ctx.replay['replay'].get('two_engines')):
+        two_engines_cases(res)
+        if ctx.replay is not None:
+            return res
     if ctx.replay is None or (isinstance(ctx.replay.get('replay'), dict) and ctx.replay['replay'].get('remote_completion')):
         remote_completion_cases(res)
         if ctx.replay is not None:
